@@ -282,6 +282,7 @@ type Sim struct {
 	PoolBias int // percentage of Gets that prefer a recycled scratch when one is available
 	poolKeys [maxPools]*sync.Pool
 	poolLst  [maxPools][maxPoolLen]unsafe.Pointer
+	poolMu   [maxPools][maxPoolLen]*sync.Mutex // per-item Put->Get edge, the one sync.Pool itself provides
 	poolLen  [maxPools]int
 	npools   int
 
@@ -876,10 +877,16 @@ func poolGet(pool *sync.Pool, fresh func() unsafe.Pointer, got unsafe.Pointer) u
 	}
 	idx := n - c
 	k := s.poolLst[pi][idx]
+	mu := s.poolMu[pi][idx]
 	for j := idx; j < n-1; j++ {
 		s.poolLst[pi][j] = s.poolLst[pi][j+1]
+		s.poolMu[pi][j] = s.poolMu[pi][j+1]
 	}
 	s.poolLst[pi][n-1] = nil
+	s.poolMu[pi][n-1] = nil
+	// acquire: everything the previous holder did before Put happens before this Get
+	mu.Lock()
+	mu.Unlock()
 	s.poolLen[pi] = n - 1
 	s.St.PoolRecycled++
 	LastPoolRecycled = k
@@ -911,9 +918,14 @@ func poolPut(pool *sync.Pool, k unsafe.Pointer) {
 		// drop the oldest
 		for j := 0; j < n-1; j++ {
 			s.poolLst[pi][j] = s.poolLst[pi][j+1]
+			s.poolMu[pi][j] = s.poolMu[pi][j+1]
 		}
 		n--
 	}
 	s.poolLst[pi][n] = k
+	mu := new(sync.Mutex)
+	mu.Lock()
+	mu.Unlock() // release
+	s.poolMu[pi][n] = mu
 	s.poolLen[pi] = n + 1
 }
